@@ -532,6 +532,81 @@ example : atoi [45, 57, 50, 50, 51, 51, 55, 50, 48, 51, 54, 56, 53, 52, 55, 55, 
     atoi [57, 50, 50, 51, 51, 55, 50, 48, 51, 54, 56, 53, 52, 55, 55, 53, 56, 48, 56] = none ∧
     atoi [] = none ∧ atoi [43] = none ∧ atoi [49, 95, 48] = none := by decide
 
+/-- **`strconv.Atoi` against a declarative grammar**: the modelled `Atoi` accepts exactly the decimal
+notations of int64 values — optional `+`/`-`, at least one digit `0`-`9`, nothing else (no spaces,
+no `_`, no `0x`, no non-ASCII digits), value in range — and returns that value. -/
+theorem atoi_iff_decimal (s : Str) (i : Int) : atoi s = some i ↔ DecimalInt64 s i := by
+  have digit_head : ∀ (ds : List Nat) (r : Str) (k : Nat), (∀ d ∈ ds, d < 10) → k < 48 →
+      ds.map (· + 48) ≠ k :: r := by
+    intro ds r k hd hk h
+    cases ds with
+    | nil => cases h
+    | cons d ds => simp only [List.map_cons, List.cons.injEq] at h; omega
+  -- the three shapes of `s`
+  have body_case : ∀ (neg : Bool) (sign body : Str), s = sign ++ body →
+      (sign = if neg then [45] else []) ∨ (neg = false ∧ sign = [43]) →
+      (atoiBody neg body = some i ↔
+        ∃ ds : List Nat, ds ≠ [] ∧ (∀ d ∈ ds, d < 10) ∧ body = ds.map (· + 48) ∧
+          i = (if neg then -(decVal ds : Int) else (decVal ds : Int)) ∧
+          -(2 ^ 63 : Int) ≤ i ∧ i < 2 ^ 63) := by
+    intro neg sign body _ _
+    rw [atoi_body]
+    constructor
+    · rintro ⟨hne, hall, hi, hr⟩
+      refine ⟨body.map (· - 48), ?_, ?_, (map_sub_add_48 body hall).symm, hi, hr⟩
+      · intro h; exact hne (List.map_eq_nil_iff.mp h)
+      · intro d hd
+        obtain ⟨c, hc, rfl⟩ := List.mem_map.mp hd
+        have := hall c hc; omega
+    · rintro ⟨ds, hne, hd, rfl, hi, hr⟩
+      refine ⟨?_, ?_, ?_, hr⟩
+      · intro h; exact hne (List.map_eq_nil_iff.mp h)
+      · intro c hc
+        obtain ⟨d, hdm, rfl⟩ := List.mem_map.mp hc
+        have := hd d hdm; omega
+      · rw [map_add_sub_48]; exact hi
+  unfold DecimalInt64
+  by_cases hm : ∃ r, s = 45 :: r
+  · obtain ⟨r, rfl⟩ := hm
+    rw [atoi_minus, body_case true [45] r rfl (Or.inl rfl)]
+    constructor
+    · rintro ⟨ds, hne, hd, hb, hi, hr⟩
+      exact ⟨[45], ds, Or.inr (Or.inr rfl), hne, hd, by rw [hb]; rfl, by simpa using hi, hr⟩
+    · rintro ⟨sign, ds, hs, hne, hd, hb, hi, hr⟩
+      rcases hs with rfl | rfl | rfl
+      · exact absurd hb.symm (digit_head ds r 45 hd (by omega))
+      · simp only [List.cons_append, List.nil_append, List.cons.injEq] at hb; omega
+      · simp only [List.cons_append, List.nil_append, List.cons.injEq, true_and] at hb
+        exact ⟨ds, hne, hd, hb, by simpa using hi, hr⟩
+  · by_cases hp : ∃ r, s = 43 :: r
+    · obtain ⟨r, rfl⟩ := hp
+      rw [atoi_plus, body_case false [43] r rfl (Or.inr ⟨rfl, rfl⟩)]
+      constructor
+      · rintro ⟨ds, hne, hd, hb, hi, hr⟩
+        exact ⟨[43], ds, Or.inr (Or.inl rfl), hne, hd, by rw [hb]; rfl, by simpa using hi, hr⟩
+      · rintro ⟨sign, ds, hs, hne, hd, hb, hi, hr⟩
+        rcases hs with rfl | rfl | rfl
+        · exact absurd hb.symm (digit_head ds r 43 hd (by omega))
+        · simp only [List.cons_append, List.nil_append, List.cons.injEq, true_and] at hb
+          exact ⟨ds, hne, hd, hb, by simpa using hi, hr⟩
+        · simp only [List.cons_append, List.nil_append, List.cons.injEq] at hb; omega
+    · rw [atoi_nosign s (fun r h => hm ⟨r, h⟩) (fun r h => hp ⟨r, h⟩),
+        body_case false [] s rfl (Or.inl rfl)]
+      constructor
+      · rintro ⟨ds, hne, hd, hb, hi, hr⟩
+        exact ⟨[], ds, Or.inl rfl, hne, hd, by simpa using hb, by simpa using hi, hr⟩
+      · rintro ⟨sign, ds, hs, hne, hd, hb, hi, hr⟩
+        rcases hs with rfl | rfl | rfl
+        · exact ⟨ds, hne, hd, by simpa using hb, by simpa using hi, hr⟩
+        · exact absurd ⟨_, hb⟩ hp
+        · exact absurd ⟨_, hb⟩ hm
+
+example : DecimalInt64 [45, 49, 50] (-12) ∧ atoi [45, 49, 50] = some (-12) ∧
+    ¬ DecimalInt64 [49, 95, 48] 10 := by
+  refine ⟨(atoi_iff_decimal _ _).mp (by decide), by decide, fun h => ?_⟩
+  have := (atoi_iff_decimal _ _).mpr h
+  revert this; decide
+
 /-! ## The group -/
 
 /-- The group is built iff the policy AND the filter definition are acceptable; it then holds the
@@ -630,5 +705,177 @@ theorem fixed_out_of_range_builds (O : Oracle) (pv : PolicyVal) (filters : List 
 example : buildGroup Demo.O (.funcs [⟨sFixed, false, [⟨[], [55]⟩]⟩]) Demo.filters Demo.annos Demo.pool
       = .ok ⟨.fixed 7, [(1, 0), (2, 0), (3, 5000000)]⟩ ∧
     selectFixed 7 [(1, (0 : Int)), (2, 0), (3, 5000000)] = .error .outOfRange := by decide
+
+/-! ## Several groups over one pool -/
+
+/-- The group loop builds every group over the same pool, each exactly as if it were alone; the list
+is built iff every group is. -/
+theorem groups_built_iff (O : Oracle) (pool : List Node) : ∀ (ds : List GroupDef) (gs : List Group),
+    buildGroups O pool ds = .ok gs ↔
+      gs.length = ds.length ∧
+        ∀ dg ∈ ds.zip gs, buildGroup O dg.1.pv dg.1.filters dg.1.annos pool = .ok dg.2 := by
+  intro ds
+  induction ds with
+  | nil =>
+    intro gs
+    cases gs <;> simp [buildGroups]
+  | cons d ds ih =>
+    intro gs
+    rw [buildGroups]
+    cases hb : buildGroup O d.pv d.filters d.annos pool with
+    | error e =>
+      simp only [reduceCtorEq, false_iff, not_and]
+      intro hlen hall
+      cases gs with
+      | nil => simp at hlen
+      | cons g gs' =>
+        have := hall (d, g) (by simp)
+        rw [hb] at this; cases this
+    | ok g =>
+      cases hr : buildGroups O pool ds with
+      | error e =>
+        simp only [reduceCtorEq, false_iff, not_and]
+        intro hlen hall
+        cases gs with
+        | nil => simp at hlen
+        | cons g' gs' =>
+          have := (ih gs').mpr ⟨by simpa using hlen, fun dg hdg => hall dg (by simp [hdg])⟩
+          rw [hr] at this; cases this
+      | ok gs0 =>
+        simp only [Except.ok.injEq]
+        have ih0 := (ih gs0).mp hr
+        constructor
+        · rintro rfl
+          refine ⟨by simp [ih0.1], ?_⟩
+          intro dg hdg
+          simp only [List.zip_cons_cons, List.mem_cons] at hdg
+          rcases hdg with rfl | hdg
+          · exact hb
+          · exact ih0.2 dg hdg
+        · rintro ⟨hlen, hall⟩
+          cases gs with
+          | nil => simp at hlen
+          | cons g' gs' =>
+            have h1 := hall (d, g') (by simp)
+            rw [hb] at h1
+            obtain rfl := Except.ok.inj h1
+            have h2 := (ih gs').mpr ⟨by simpa using hlen, fun dg hdg => hall dg (by simp [hdg])⟩
+            rw [hr] at h2
+            rw [Except.ok.inj h2]
+
+/-- **A group's members do not depend on the other groups**: in a built configuration every group
+holds exactly what its own definition means over the (one, unchanged) node pool — whatever the
+groups before it were (filtered or not, with check overrides or not). -/
+theorem group_in_sequence_is_meaning (O : Oracle) (pool : List Node) (ds : List GroupDef)
+    (gs : List Group) (h : buildGroups O pool ds = .ok gs) :
+    ∀ dg ∈ ds.zip gs, DefValid O (dg.1.filters.zip dg.1.annos) ∧
+      dg.2.members = (if dg.1.filters = [] then pool.zipIdx.map (fun ni => (ni.2, 0))
+                      else specMembers O (dg.1.filters.zip dg.1.annos) pool) := by
+  intro dg hdg
+  exact group_members_are_meaning O dg.1.pv dg.1.filters dg.1.annos pool dg.2
+    (((groups_built_iff O pool ds gs).mp h).2 dg hdg)
+
+/-- The configuration is rejected iff some group on its own is. -/
+theorem groups_error_iff (O : Oracle) (pool : List Node) (ds : List GroupDef) :
+    (∃ e, buildGroups O pool ds = .error e) ↔
+      ∃ d ∈ ds, ∃ e, buildGroup O d.pv d.filters d.annos pool = .error e := by
+  induction ds with
+  | nil => simp [buildGroups]
+  | cons d ds ih =>
+    rw [buildGroups]
+    cases hb : buildGroup O d.pv d.filters d.annos pool with
+    | error e => simp [hb]
+    | ok g =>
+      cases hr : buildGroups O pool ds with
+      | error e =>
+        have := ih.mp (by rw [hr]; exact ⟨e, rfl⟩)
+        obtain ⟨d', hd', e', he'⟩ := this
+        simp only [Except.error.injEq, exists_eq', List.mem_cons, true_iff]
+        exact ⟨d', Or.inr hd', e', he'⟩
+      | ok gs0 =>
+        simp only [reduceCtorEq, exists_false, List.mem_cons, false_iff, not_exists, not_and]
+        intro d' hd' e' he'
+        rcases hd' with rfl | hd'
+        · rw [hb] at he'; cases he'
+        · have := ih.mpr ⟨d', hd', e', he'⟩
+          rw [hr] at this
+          obtain ⟨_, h⟩ := this; cases h
+
+-- an unfiltered group first, then a subtag-filtered one: the second still sees the tags
+example : (buildGroups Demo.O Demo.pool
+      [⟨.str sMin, [], []⟩, ⟨.str sRandom, [[⟨sSubtag, false, [⟨[], Demo.sub⟩]⟩]], [[]]⟩]).map
+        (·.map (·.members))
+    = .ok [[(0, 0), (1, 0), (2, 0), (3, 0)], [(0, 0), (1, 0)]] := by decide
+
+/-! ## `time.ParseDuration` as mirrored (`parseDuration`) -/
+
+/-- A bare number is not a duration ("missing unit"), with or without sign — except the literal
+`0`. For every digit string. -/
+theorem dur_bare_number_rejected (ds : Str) (hne : ds ≠ []) (hd : ∀ c ∈ ds, isDigit c = true)
+    (h0 : ds ≠ [48]) :
+    parseDuration ds = none ∧ parseDuration (45 :: ds) = none ∧ parseDuration (43 :: ds) = none := by
+  have key : durTerms (ds.length + 1) ds 0 = none := by
+    cases ds with
+    | nil => exact absurd rfl hne
+    | cons c cs =>
+      have hc := hd c List.mem_cons_self
+      rw [durTerms]
+      simp only [hc, Bool.or_true, Bool.not_true, Bool.false_eq_true, if_false]
+      rcases leadingInt_all_digits (c :: cs) 0 hd with h | ⟨y, h⟩
+      · rw [h]
+      · rw [h]
+        simp [spanUnit]
+  have body : ∀ neg : Bool, (if ds = [48] then some (0 : Int)
+      else if ds.isEmpty then none
+      else match durTerms (ds.length + 1) ds 0 with
+        | none => none
+        | some d => if neg then some (-(d : Int)) else if d > 2 ^ 63 - 1 then none else some (d : Int))
+      = none := by
+    intro neg
+    rw [if_neg h0, key]
+    cases ds <;> simp_all
+  have hhead : ∀ r, ds ≠ 45 :: r ∧ ds ≠ 43 :: r := by
+    intro r
+    constructor <;> intro h <;> have := hd _ (by rw [h]; exact List.mem_cons_self) <;>
+      simp [isDigit] at this
+  refine ⟨?_, body true, body false⟩
+  unfold parseDuration
+  split
+  rename_i neg b heq
+  split at heq
+  · exact absurd rfl (hhead _).1
+  · exact absurd rfl (hhead _).2
+  · simp only [Prod.mk.injEq] at heq
+    obtain ⟨rfl, rfl⟩ := heq
+    exact body false
+
+example : parseDuration [53] = none ∧ parseDuration [48] = some 0 ∧
+    parseDuration [53, 109, 115] = some 5000000 ∧ parseDuration [45, 51, 109, 115] = some (-3000000) ∧
+    parseDuration [49, 104, 50, 109] = some 3720000000000 ∧ parseDuration [49, 100] = none ∧
+    parseDuration [] = none ∧ parseDuration [109, 115] = none ∧ parseDuration [53, 32, 109, 115] = none := by
+  decide
+
+/-- The clause "a malformed annotation is a configuration error", with the duration grammar inside
+the model: `[add_latency: 5]` (a number without unit) anywhere in a definition rejects the whole
+group, for every pool and every regex engine. -/
+theorem unitless_latency_is_config_error (re : Str → Option (Str → Bool)) (filters : List Line)
+    (annos : List (List Param)) (pool : List Node) (a : List Param) (p : Param)
+    (ha : a ∈ annos) (hp : p ∈ a)
+    (hne : p.val ≠ []) (hd : ∀ c ∈ p.val, isDigit c = true) (h0 : p.val ≠ [48]) :
+    ∃ e, filterAndAnnotate (goOracle re) filters annos pool = .error e := by
+  by_cases hlen : filters.length = annos.length
+  · apply invalid_always_reported
+    intro hv
+    obtain ⟨l, hl⟩ := exists_zip_of_mem_right filters annos hlen a ha
+    have := ((hv (l, a) hl).2 p hp).2
+    have hnone : (goOracle re).dur p.val = none := (dur_bare_number_rejected p.val hne hd h0).1
+    rw [hnone] at this
+    cases this
+  · unfold filterAndAnnotate
+    rw [if_pos (by simpa using hlen)]
+    exact ⟨_, rfl⟩
+
+example : filterAndAnnotate (goOracle fun _ => none) [[⟨sName, false, [⟨[], [104]⟩]⟩]]
+    [[⟨sAddLatency, [53]⟩]] [] = .error (.annoLatency [53]) := by decide
 
 end DaeVerif.C14.Props
